@@ -296,6 +296,53 @@ Theorem retry_converges_to_c01_spec : forall extra ch pub cfg w seg S0 L0 h ops 
 Proof. exact PC.retry_converges_to_c01_spec_l. Qed.
 Print Assumptions retry_converges_to_c01_spec.
 
+(* ---- the async-sync semaphore (MaxAsyncConcurrency): [s_max] slots, [s_slots] in use ---- *)
+
+(* a sync gives its slot back whatever happens - failure at any request, hook failure, the
+   syncer cannot be made, success, duplicate, nothing to do: for EVERY state, op, fault script
+   the slots in use (and the limit) are afterwards what they were *)
+Theorem failed_sync_returns_its_slot : forall fx w seg o st,
+  fx_slot fx = true ->
+  s_slots (fst (step fx w seg o st)) = s_slots st /\ s_max (fst (step fx w seg o st)) = s_max st.
+Proof. exact P4.slot_returned_l. Qed.
+Print Assumptions failed_sync_returns_its_slot.
+
+(* hence no slot is in use after any history, for any limit *)
+Theorem no_slot_in_use_after_any_history : forall w seg m S0 L0 ops,
+  s_slots (run fx_fixed w seg ops (init_max m S0 L0)) = 0.
+Proof. exact P4.no_slot_in_use_l. Qed.
+Print Assumptions no_slot_in_use_after_any_history.
+
+(* retry_converges for a subscriber with ANY MaxAsyncConcurrency m (0 = none): however many
+   announce-triggered syncs failed before, the fault-free sync is not kept waiting for a slot *)
+Theorem retry_converges_any_concurrency_limit : forall w seg m S0 L0 h ops r,
+  wf_world w -> Forall (wf_op w h) ops -> retry_ok w h r ->
+  let st1 := fst (step fx_fixed w seg r (run fx_fixed w seg ops (init_max m S0 L0))) in
+  let st0 := fst (step fx_fixed w seg r (init_max m S0 L0)) in
+  failed (o_res (snd (step fx_fixed w seg r (run fx_fixed w seg ops (init_max m S0 L0))))) = false /\
+  s_latest st1 = h /\ s_latest st0 = h /\ (forall p, In p (s_store st1) <-> In p (s_store st0)) /\
+  s_slots st1 = 0.
+Proof. exact P4.retry_converges_max_l. Qed.
+Print Assumptions retry_converges_any_concurrency_limit.
+
+(* false of a variant that gives the slot back only after a successful sync: limit 1, one
+   failed announce-triggered sync (one error event, CID un-cached: it looks right), and the
+   healthy re-announcement never starts: no event, latest-sync unset *)
+Theorem slot_kept_on_failure_refuted :
+  let w := w_plain [true] in
+  let o := op_a [0] 1 [FStatus 500] false in
+  let r := op_a [0] 1 [] false in
+  wf_world w /\ wf_op w 1 o /\ retry_ok w 1 r /\
+  o_events (snd (step fx_slot_kept_on_failure w 0 o (init_max 1 [] 0))) = [EvErr 1 0] /\
+  s_cache (fst (step fx_slot_kept_on_failure w 0 o (init_max 1 [] 0))) = [] /\
+  s_slots (fst (step fx_slot_kept_on_failure w 0 o (init_max 1 [] 0))) = 1 /\
+  o_res (snd (step fx_slot_kept_on_failure w 0 r (run fx_slot_kept_on_failure w 0 [o] (init_max 1 [] 0)))) = RAnnBlocked /\
+  o_events (snd (step fx_slot_kept_on_failure w 0 r (run fx_slot_kept_on_failure w 0 [o] (init_max 1 [] 0)))) = [] /\
+  s_latest (fst (step fx_slot_kept_on_failure w 0 r (run fx_slot_kept_on_failure w 0 [o] (init_max 1 [] 0)))) = 0 /\
+  s_latest (fst (step fx_fixed w 0 r (run fx_fixed w 0 [o] (init_max 1 [] 0)))) = 1.
+Proof. exact P4.slot_kept_on_failure_refuted. Qed.
+Print Assumptions slot_kept_on_failure_refuted.
+
 (* ---- ties to the Gallina regenerated from the Go source (proofs/GenTie_C04.v) ---- *)
 From Coq Require Import ZArith NArith List Bool Lia String.
 From Lib Require Import Bytes.
